@@ -1,20 +1,29 @@
 /-
 C19 - discrete measures: parameter-vector round trips and product structure.
-Property theorems only (helper lemmas: Proofs/Discrete.lean, Proofs/DiscretePack.lean, Proofs/DiscreteNum.lean).
+Property theorems only (helper lemmas: Proofs/Discrete.lean, Proofs/DiscretePack.lean, Proofs/DiscreteNum.lean, ...).
 
 Model: `MysticVerif.Discrete` (Model/Discrete.lean).  `some`/`.ok` = the call returned, `none`/`.error` = it raised.
 Structural theorems hold for EVERY payload type; numeric ones for every linearly ordered field `K`
 (the code's `numpy.inf` / `nan` / `sqrt` are parameters `inf nan : K`, `sqrt : K → K`).
 
-Every theorem listed for C19 in DESIGN.md section 5 is proved below.  NOT covered by a theorem (correspondence +
-monitor only): `constraints.impose_measure` / `impose_collapse` / `impose_unweighted` (modelled in
-Model/Discrete.lean `imposeMeasure`; `impose_collapse` depends on python set iteration order for chained pairs),
-`compose(x)` with default uniform weights (`composeU`), the malformed-shape error enum of `_unpack`, and rounding
-(the numeric theorems are field statements; python's compensated `sum` and numpy reductions are not modelled).
+Every theorem listed for C19 in DESIGN.md section 5 is proved below, plus (helper lemmas in Proofs/DiscreteImpose.lean,
+Proofs/DiscreteUpdate.lean, Proofs/DiscreteStats.lean; model additions in Model/DiscreteExt.lean):
+`constraints.impose_measure` (shape / frame / round trip, total weight and centre of mass of every factor, noweight
+indices exactly 0, tracked pairs on one position), `update` for EVERY parameter length and EVERY shape (frame property),
+the maximum / minimum / ptp / ess_* family, measure-level expect / support, `pof_value`, `mean_value`, `set_mean_value`,
+the product-level `center_mass` setter and `measure.normalize`.
+NOT covered by a theorem (correspondence + monitor only): `tools.connected` (the impose theorems take its grouping of
+the pairs as given; `impose_collapse` depends on python set iteration order for chained pairs: C18), `compose(x)` with
+default uniform weights (`composeU`), the malformed-shape error enum of `_unpack`, and rounding (the numeric theorems are
+field statements; python's compensated `sum` and numpy reductions are not modelled).  Outside the model: `set_expect*`
+(an optimizer run) and the `sampled_*` family (random sampling).
 -/
 import MysticVerif.Proofs.Discrete
 import MysticVerif.Proofs.DiscretePack
 import MysticVerif.Proofs.DiscreteNum
+import MysticVerif.Proofs.DiscreteImpose
+import MysticVerif.Proofs.DiscreteUpdate
+import MysticVerif.Proofs.DiscreteStats
 import Mathlib.Algebra.Order.Field.Rat
 import Mathlib.Tactic.NormNum
 
@@ -195,6 +204,95 @@ theorem supdate_spec (self : Scen α) (params : List α) (hne : ∀ m ∈ self.p
         rw [← hv, List.length_drop]; omega
       simp [this]
 
+/-! ### update for EVERY parameter length and EVERY shape (the frame property) -/
+
+/-- **update, every prefix length** (factors of at least one point; NO assumption on `len(params)`).
+`update(params)` always returns a measure `r` with the same number of factors, and there is a cut `k` with:
+* every factor from `k` on is UNCHANGED (`r[i] = self[i]`): nothing past the addressed prefix is touched;
+* factor `i` lies before the cut exactly when the parameters reach past its weights block
+  (`2*sum(pts[:i]) + pts[i] < len(params)`), and then it is non-empty and is the factor built from the parameters
+  (`updU`: weights block zipped with the positions block as far as the positions go);
+* whenever the parameters cover the first `j` factors completely (`2*sum(pts[:j]) ≤ len(params)`), those factors
+  keep their sizes and their parameter vector is EXACTLY `params[:2*sum(pts[:j])]`.
+`j = len(self)` gives `update_spec` back.  The factor at the cut whose positions block is only partly given is
+rebuilt SHORTER (`update_short_params_witness`): the docstring assumes `len(params) >= 2*sum(pts)`. -/
+theorem update_every_prefix (self : PM α) (params : List α) (hne : ∀ m ∈ self, m ≠ []) :
+    ∃ k r, update self params = some r ∧ r.length = self.length ∧ k ≤ self.length ∧
+      r = (updU self params).take k ++ self.drop k ∧
+      (∀ i, k ≤ i → r[i]? = self[i]?) ∧
+      (∀ i, i < k → ∃ m, r[i]? = some m ∧ m ≠ []) ∧
+      (∀ i (hi : i < (pts self).length),
+        (i < k ↔ 2 * ((pts self).take i).sum + (pts self)[i] < params.length)) ∧
+      (∀ j, j ≤ self.length → 2 * ((pts self).take j).sum ≤ params.length →
+        j ≤ k ∧ pts (r.take j) = (pts self).take j ∧
+          flatten (r.take j) = params.take (2 * ((pts self).take j).sum)) :=
+  Discrete.update_every_prefix self params hne
+
+/-- outside the documented precondition (`len(params) < 2*sum(pts)`): a weights block without any position is
+dropped (the addressed weights are NOT applied), a partly given positions block SHRINKS the factor. -/
+theorem update_short_params_witness :
+    update ([[⟨1, 10⟩, ⟨2, 20⟩]] : PM Nat) [5, 6] = some [[⟨1, 10⟩, ⟨2, 20⟩]] ∧
+    update ([[⟨1, 10⟩, ⟨2, 20⟩]] : PM Nat) [5, 6, 7] = some [[⟨5, 7⟩]] ∧
+    update ([[⟨1, 10⟩], [⟨2, 20⟩, ⟨3, 30⟩]] : PM Nat) [5, 6, 7, 8] = some [[⟨5, 6⟩], [⟨2, 20⟩, ⟨3, 30⟩]] := by decide
+
+/-- **update, every shape** (empty factors included; parameters long enough).  With `z` empty factors in the
+shape, the first `len - z` factors of the result are exactly the factors described by the parameters (`c`, the
+measure of the same shape whose parameter vector is `params[:2*sum(pts)]`) and the LAST `z` factors are the old
+ones: `zo = pm.count([])` also counts the factors that are empty by shape.  Without empty factors (`z = 0`) this
+is `update_spec`; with the empty factors at the end nothing is lost either; `update_empty_factor_witness` is the
+other case. -/
+theorem update_any_shape (self : PM α) (params : List α) (hlen : 2 * (pts self).sum ≤ params.length) :
+    ∃ c, unflatten (params.take (2 * (pts self).sum)) (pts self) = some c ∧ pts c = pts self ∧
+      flatten c = params.take (2 * (pts self).sum) ∧
+      update self params = some (c.take (self.length - (pts self).count 0) ++
+        self.drop (self.length - (pts self).count 0)) :=
+  Discrete.update_any_shape self params hlen
+
+/-- **scenario update, every parameter length and shape.**  `scenario.update` always returns; its measures are
+those of `product_measure.update`; the values keep their number, entry `i` is replaced by surplus parameter `i`
+exactly when both exist (a prefix of length `min(#surplus, #values)`), every other value is unchanged. -/
+theorem supdate_every_prefix (self : Scen α) (params : List α) :
+    ∃ s, supdate self params = some s ∧ update self.pm params = some s.pm ∧
+      s.values.length = self.values.length ∧
+      ∀ i, s.values[i]? =
+        if i < (params.drop (2 * (pts self.pm).sum)).length ∧ i < self.values.length
+        then (params.drop (2 * (pts self.pm).sum))[i]? else self.values[i]? := by
+  obtain ⟨c, hc1⟩ : ∃ c, update self.pm params = some c := ⟨_, update_eq self.pm params⟩
+  have hs : supdate self params = some ⟨c,
+      if params.length > 2 * (pts self.pm).sum
+      then (extraParams params (pts self.pm)).take self.values.length
+        ++ self.values.drop (extraParams params (pts self.pm)).length
+      else self.values⟩ := by
+    simp only [supdate, hc1, Option.map_some]
+  refine ⟨_, hs, hc1, ?_, ?_⟩
+  · simp only [extraParams]
+    split
+    · simp; omega
+    · rfl
+  · intro i
+    simp only [extraParams]
+    generalize hv : params.drop (2 * (pts self.pm).sum) = v
+    split
+    · by_cases hi : i < v.length ∧ i < self.values.length
+      · rw [if_pos hi, List.getElem?_append_left (by rw [List.length_take]; omega),
+          List.getElem?_take_of_lt hi.2]
+      · rw [if_neg hi]
+        by_cases h1 : i < self.values.length
+        · have h2 : v.length ≤ i := by
+            by_contra hc; exact hi ⟨by omega, h1⟩
+          have hmin : (List.take self.values.length v).length = v.length := by
+            rw [List.length_take]; omega
+          rw [List.getElem?_append_right (by omega), hmin, List.getElem?_drop]
+          congr 1; omega
+        · have h3 : self.values.length ≤ i := by omega
+          rw [List.getElem?_eq_none (by rw [List.length_append, List.length_take, List.length_drop]; omega),
+            List.getElem?_eq_none h3]
+    · rename_i hle
+      have : v = [] := by
+        apply List.eq_nil_of_length_eq_zero
+        rw [← hv, List.length_drop]; omega
+      simp [this]
+
 /-! ## `_pack` / `_unpack` and the product structure -/
 
 /-- **unpack ∘ pack.** For a non-empty list of non-empty factors `_unpack(_pack(s), shape of s)` returns `s`
@@ -318,6 +416,308 @@ theorem set_var (inf nan : K) (sqrt : K → K) (m : Measure K) (v : K) (hw : (mw
 
 end field
 
+/-! ## `constraints.impose_measure(npts, tracking, noweight)` (constraints.py l.1758-1826)
+
+`imposeMeasure inf npts tracking noweight x` is what the decorated function hands to `f`.  `tracking` is the
+sequence of `(factor, groups)` items in the order the code visits them (`groups` = `tools.connected(pairs)`
+of that factor, each group `(key, members)`), `noweight` the sequence of `(factor, indices)` items.
+The loaded measure is `c = unflatten(x[:2*sum(npts)], npts)`, the result is `flatten (imposeOn .. c)`. -/
+
+section impose
+variable {K : Type} [Field K] [LinearOrder K] [IsStrictOrderedRing K]
+
+/-- **impose_measure: shape, frame, round trip.**  For every parameter vector of at least `2*sum(npts)`
+numbers: the result is the flattening of a measure `c'` of the SAME shape (so unflattening it with `npts` gives
+`c'` back, surplus parameters are dropped), and every factor that neither `tracking` nor `noweight` addresses
+is, in `c'`, exactly the factor loaded from `x` - flatten -> impose -> unflatten only changes what it addresses. -/
+theorem impose_measure_frame (inf : K) (npts : List Nat) (tr : List (Nat × List (Nat × List Nat)))
+    (nw : List (Nat × List Nat)) (x : List K) (hlen : 2 * npts.sum ≤ x.length) :
+    ∃ c, unflatten (x.take (2 * npts.sum)) npts = some c ∧ pts c = npts ∧
+      imposeMeasure inf npts tr nw x = some (flatten (imposeOn inf tr nw c)) ∧
+      (flatten (imposeOn inf tr nw c)).length = 2 * npts.sum ∧
+      pts (imposeOn inf tr nw c) = npts ∧
+      unflatten (flatten (imposeOn inf tr nw c)) npts = some (imposeOn inf tr nw c) ∧
+      ∀ k, (∀ kv ∈ tr, kv.1 ≠ k) → (∀ kv ∈ nw, kv.1 ≠ k) → (imposeOn inf tr nw c)[k]? = c[k]? := by
+  obtain ⟨c, h1, h2, _, h4⟩ := imposeMeasure_eq inf npts tr nw x hlen
+  have hp := imposeOn_pts inf tr nw c
+  refine ⟨c, h1, h2, h4, ?_, by rw [hp, h2], ?_, fun k a b => imposeOn_frame inf tr nw c k a b⟩
+  · rw [length_flatten, hp, h2]
+  · have := unflatten_flatten (imposeOn inf tr nw c)
+    rwa [hp, h2] at this
+
+/-- **impose_measure keeps the weight norm and the centre of mass of EVERY factor** (what `impose_collapse` and
+`impose_unweighted` document as "norm-preserving for weights, mean-preserving for samples").  For a factor `m`
+of the loaded measure with non-negative weights of positive total, whose collapse groups are well formed (key in
+range and not among its own members) and whose `noweight` selections leave at least one point: the factor `m'`
+of the result has the same number of points, non-negative weights, the same total weight and the same centre of
+mass - whatever the other factors are and however many items address it. -/
+theorem impose_measure_kept (inf : K) (tr : List (Nat × List (Nat × List Nat))) (nw : List (Nat × List Nat))
+    (c : PM K) (k : Nat) (m : Measure K) (hm : c[k]? = some m)
+    (hnn : ∀ w ∈ mweights m, 0 ≤ w) (hpos : 0 < (mweights m).sum)
+    (htr : ∀ kv ∈ tr, kv.1 = k → ∀ g ∈ kv.2, GroupOK m.length g)
+    (hnw : ∀ kv ∈ nw, kv.1 = k → ∃ i, i < m.length ∧ i ∉ kv.2) :
+    ∃ m', (imposeOn inf tr nw c)[k]? = some m' ∧ m'.length = m.length ∧
+      (∀ w ∈ mweights m', 0 ≤ w) ∧ (mweights m').sum = (mweights m).sum ∧
+      centerMass inf m' = centerMass inf m := by
+  obtain ⟨m', h1, h2⟩ := imposeOn_kept inf tr nw c k m hm hnn hpos htr hnw
+  exact ⟨m', h1, h2.len, h2.nonneg, h2.mass, h2.cm⟩
+
+/-- **noweight: the selected weights are zero.**  With one `noweight` dict (distinct factor keys), for the item
+`(k, indices)`: every selected in-range index of factor `k` has weight exactly 0 in the result (hypotheses on the
+factor as in `impose_measure_kept`). -/
+theorem impose_measure_noweight_zero (inf : K) (tr : List (Nat × List (Nat × List Nat)))
+    (nw : List (Nat × List Nat)) (c : PM K) (hnd : (nw.map (·.1)).Nodup) (kv : Nat × List Nat) (hkv : kv ∈ nw)
+    (m : Measure K) (hm : c[kv.1]? = some m) (hnn : ∀ w ∈ mweights m, 0 ≤ w) (hpos : 0 < (mweights m).sum)
+    (htr : ∀ t ∈ tr, t.1 = kv.1 → ∀ g ∈ t.2, GroupOK m.length g)
+    (hout : ∃ i, i < m.length ∧ i ∉ kv.2) :
+    ∃ m', (imposeOn inf tr nw c)[kv.1]? = some m' ∧
+      ∀ p ∈ kv.2, p < m.length → (mweights m')[p]? = some 0 := by
+  obtain ⟨m1, h1, hk⟩ := imposeOn_kept inf tr [] c kv.1 m hm hnn hpos htr (by simp)
+  have e1 : imposeOn inf tr [] c = applyOps (collapseM inf) tr c := rfl
+  rw [e1] at h1
+  refine ⟨unweightM inf kv.2 m1, ?_, ?_⟩
+  · rw [imposeOn_eq, applyOps_nodup (unweightM inf) nw _ hnd kv hkv, h1]; rfl
+  · intro p hp hpn
+    rw [(unweightM_parts inf kv.2 m1).2]
+    have hl : (mpositions m1).length = (mweights m1).length := by simp
+    obtain ⟨_, _, _, _, _, h6⟩ := imposeUnweighted_spec inf kv.2 (mpositions m1) (mweights m1) hl hk.nonneg
+      (by rw [hk.mass]; exact hpos) (by rw [length_mweights, hk.len]; exact hout)
+    exact h6 p hp (by rw [length_mweights, hk.len]; exact hpn)
+
+/-- **tracking: the paired positions coincide (and the removed weight is zero).**  With one `tracking` dict
+(distinct factor keys), for the item `(k, groups)` with well-formed, pairwise disjoint groups: every in-range
+member `p` of a group with key `i` has, in the result, the position of `i` - also after any `noweight` items -
+and, when no `noweight` item addresses factor `k`, weight exactly 0. -/
+theorem impose_measure_collapsed (inf : K) (tr : List (Nat × List (Nat × List Nat)))
+    (nw : List (Nat × List Nat)) (c : PM K) (hnd : (tr.map (·.1)).Nodup)
+    (kv : Nat × List (Nat × List Nat)) (hkv : kv ∈ tr) (m : Measure K) (hm : c[kv.1]? = some m)
+    (hok : ∀ g ∈ kv.2, GroupOK m.length g)
+    (hdis : kv.2.Pairwise fun a b => ∀ p, inGroup a p → ¬ inGroup b p)
+    (g : Nat × List Nat) (hg : g ∈ kv.2) (p : Nat) (hp : p ∈ g.2) (hpn : p < m.length) :
+    ∃ m', (imposeOn inf tr nw c)[kv.1]? = some m' ∧
+      (mpositions m')[p]? = (mpositions m')[g.1]? ∧
+      ((∀ t ∈ nw, t.1 ≠ kv.1) → (mweights m')[p]? = some 0) := by
+  have h1 : (applyOps (collapseM inf) tr c)[kv.1]? = some (collapseM inf kv.2 m) := by
+    rw [applyOps_nodup (collapseM inf) tr c hnd kv hkv, hm]; rfl
+  obtain ⟨hpos', hw'⟩ := collapseM_member inf kv.2 m hok hdis g hg p hp hpn
+  rw [imposeOn_eq]
+  have hlt : kv.1 < (applyOps (unweightM inf) nw (applyOps (collapseM inf) tr c)).length := by
+    rw [applyOps_length, applyOps_length]; exact (List.getElem?_eq_some_iff.mp hm).1
+  refine ⟨_, List.getElem?_eq_getElem hlt, ?_, ?_⟩
+  · apply applyOps_inv (unweightM inf) nw kv.1 (fun a => (mpositions a)[p]? = (mpositions a)[g.1]?)
+      (fun t _ _ a ha => unweightM_samepos inf t.2 a p g.1 ha) _ _ _ (List.getElem?_eq_getElem hlt)
+    intro a ha
+    rw [h1] at ha
+    rw [← Option.some.inj ha]; exact hpos'
+  · intro hfree
+    have := applyOps_frame (unweightM inf) nw (applyOps (collapseM inf) tr c) kv.1 hfree
+    rw [List.getElem?_eq_getElem hlt, h1] at this
+    rw [Option.some.inj this]; exact hw'
+
+end impose
+
+/-! ## the other deterministic statistics: maximum / minimum / ptp / ess_*, measure-level expect / support,
+`pof_value`, `mean_value`, product-level `center_mass`, `normalize` (Model/DiscreteExt.lean)
+
+`product_measure.maximum(f)` is, in the code, `max([i.maximum(f) for i in self])`: `f` is applied to the 1-tuples
+`(x,)` of every FACTOR's positions (not to the product positions) and the maximum over all factors is returned. -/
+
+section stats
+variable {K : Type} [Field K] [LinearOrder K] [IsStrictOrderedRing K]
+
+/-- **measure.expect / expect_var** = the explicit weighted sums over the measure's points (as 1-tuples). -/
+theorem measure_expect_def (inf : K) (m : Measure K) (f : List K → K) (hw : (mweights m).sum ≠ 0) :
+    mExpect inf m f = ((List.zip (singles m) (mweights m)).map fun xw => xw.2 * f xw.1).sum / (mweights m).sum ∧
+    mExpectVar inf m f = ((List.zip (singles m) (mweights m)).map fun xw =>
+        xw.2 * ((f xw.1 - mExpect inf m f) * (f xw.1 - mExpect inf m f))).sum / (mweights m).sum :=
+  ⟨expectation_eq inf f (singles m) (mweights m) (by simp [singles]) hw,
+   expectedVariance_eq inf f (singles m) (mweights m) (by simp [singles]) hw⟩
+
+/-- **measure.support / support_index**: the positions / indices with `weight > tol`, in order. -/
+theorem measure_support_def (m : Measure K) (tol : K) :
+    mSupport m tol = some (((List.zip (mpositions m) (mweights m)).filter fun xw => decide (tol < xw.2)).map (·.1))
+    ∧ ∀ i, i ∈ mSupportIndex m tol ↔ ∃ w, (mweights m)[i]? = some w ∧ tol < w :=
+  ⟨supportL_eq (mpositions m) (mweights m) tol (by simp), fun i => mem_supportIndexL (mweights m) tol i⟩
+
+/-- **measure.maximum / minimum**: raise exactly on the empty measure; otherwise the greatest / least value of
+`f((x,))` over the measure's positions, attained at one of them. -/
+theorem measure_maximum_def (f : List K → K) (m : Measure K) : (mMaximum f m = none ↔ m = []) ∧
+    ∀ v, mMaximum f m = some v → (∃ p ∈ m, f [p.position] = v) ∧ ∀ p ∈ m, f [p.position] ≤ v :=
+  mMaximum_spec f m
+
+theorem measure_minimum_def (f : List K → K) (m : Measure K) : (mMinimum f m = none ↔ m = []) ∧
+    ∀ v, mMinimum f m = some v → (∃ p ∈ m, f [p.position] = v) ∧ ∀ p ∈ m, v ≤ f [p.position] :=
+  mMinimum_spec f m
+
+/-- **measure.ess_maximum / ess_minimum**: the same over the points with `weight > tol`; raise exactly when no
+point has support. -/
+theorem measure_ess_maximum_def (f : List K → K) (tol : K) (m : Measure K) :
+    (mEssMaximum f tol m = none ↔ ∀ p ∈ m, ¬ tol < p.weight) ∧
+    ∀ v, mEssMaximum f tol m = some v →
+      (∃ p ∈ m, tol < p.weight ∧ f [p.position] = v) ∧ ∀ p ∈ m, tol < p.weight → f [p.position] ≤ v :=
+  mEssMaximum_spec f tol m
+
+theorem measure_ess_minimum_def (f : List K → K) (tol : K) (m : Measure K) :
+    (mEssMinimum f tol m = none ↔ ∀ p ∈ m, ¬ tol < p.weight) ∧
+    ∀ v, mEssMinimum f tol m = some v →
+      (∃ p ∈ m, tol < p.weight ∧ f [p.position] = v) ∧ ∀ p ∈ m, tol < p.weight → v ≤ f [p.position] :=
+  mEssMinimum_spec f tol m
+
+/-- **measure.ptp / ess_ptp** = maximum − minimum (resp. over the support). -/
+theorem measure_ptp_def (f : List K → K) (tol : K) (m : Measure K) :
+    (mPtp f m = match mMaximum f m, mMinimum f m with
+      | some a, some b => some (a - b)
+      | _, _ => none) ∧
+    (mEssPtp f tol m = match mEssMaximum f tol m, mEssMinimum f tol m with
+      | some a, some b => some (a - b)
+      | _, _ => none) :=
+  ⟨mPtp_eq f m, mEssPtp_eq f tol m⟩
+
+/-- **product_measure.maximum**: raises exactly when there is no factor or an empty factor; otherwise the
+greatest value of `f((x,))` over ALL positions of ALL factors, attained at one of them. -/
+theorem maximum_def (f : List K → K) (c : PM K) :
+    (pmMaximum f c = none ↔ c = [] ∨ [] ∈ c) ∧
+    ∀ v, pmMaximum f c = some v →
+      (∃ m ∈ c, ∃ p ∈ m, f [p.position] = v) ∧ ∀ m ∈ c, ∀ p ∈ m, f [p.position] ≤ v := by
+  obtain ⟨h1, h2⟩ := bind_allSome_maxL (mMaximum f) c
+  constructor
+  · rw [pmMaximum, h1]
+    constructor
+    · rintro (h | ⟨m, hm, hg⟩)
+      · left; exact h
+      · right; rw [(mMaximum_spec f m).1] at hg; rw [← hg]; exact hm
+    · rintro (h | h)
+      · left; exact h
+      · right; exact ⟨[], h, (mMaximum_spec f []).1.mpr rfl⟩
+  · intro v hv
+    obtain ⟨⟨m, hm, hg⟩, h4⟩ := h2 v hv
+    constructor
+    · exact ⟨m, hm, ((mMaximum_spec f m).2 v hg).1⟩
+    · intro m' hm' p hp
+      cases hg' : mMaximum f m' with
+      | none => rw [(mMaximum_spec f m').1] at hg'; rw [hg'] at hp; simp at hp
+      | some y => exact le_trans (((mMaximum_spec f m').2 y hg').2 p hp) (h4 m' hm' y hg')
+
+/-- **product_measure.minimum** (dual). -/
+theorem minimum_def (f : List K → K) (c : PM K) :
+    (pmMinimum f c = none ↔ c = [] ∨ [] ∈ c) ∧
+    ∀ v, pmMinimum f c = some v →
+      (∃ m ∈ c, ∃ p ∈ m, f [p.position] = v) ∧ ∀ m ∈ c, ∀ p ∈ m, v ≤ f [p.position] := by
+  obtain ⟨h1, h2⟩ := bind_allSome_minL (mMinimum f) c
+  constructor
+  · rw [pmMinimum, h1]
+    constructor
+    · rintro (h | ⟨m, hm, hg⟩)
+      · left; exact h
+      · right; rw [(mMinimum_spec f m).1] at hg; rw [← hg]; exact hm
+    · rintro (h | h)
+      · left; exact h
+      · right; exact ⟨[], h, (mMinimum_spec f []).1.mpr rfl⟩
+  · intro v hv
+    obtain ⟨⟨m, hm, hg⟩, h4⟩ := h2 v hv
+    constructor
+    · exact ⟨m, hm, ((mMinimum_spec f m).2 v hg).1⟩
+    · intro m' hm' p hp
+      cases hg' : mMinimum f m' with
+      | none => rw [(mMinimum_spec f m').1] at hg'; rw [hg'] at hp; simp at hp
+      | some y => exact le_trans (h4 m' hm' y hg') (((mMinimum_spec f m').2 y hg').2 p hp)
+
+/-- **product_measure.ess_maximum / ess_minimum**: over the supported points (`weight > tol`) of all factors;
+raise exactly when there is no factor or a factor without support. -/
+theorem ess_maximum_def (f : List K → K) (tol : K) (c : PM K) :
+    (pmEssMaximum f tol c = none ↔ c = [] ∨ ∃ m ∈ c, ∀ p ∈ m, ¬ tol < p.weight) ∧
+    ∀ v, pmEssMaximum f tol c = some v →
+      (∃ m ∈ c, ∃ p ∈ m, tol < p.weight ∧ f [p.position] = v) ∧
+      ∀ m ∈ c, ∀ p ∈ m, tol < p.weight → f [p.position] ≤ v := by
+  obtain ⟨h1, h2⟩ := bind_allSome_maxL (mEssMaximum f tol) c
+  constructor
+  · rw [pmEssMaximum, h1]
+    constructor
+    · rintro (h | ⟨m, hm, hg⟩)
+      · left; exact h
+      · right; exact ⟨m, hm, (mEssMaximum_spec f tol m).1.mp hg⟩
+    · rintro (h | ⟨m, hm, hg⟩)
+      · left; exact h
+      · right; exact ⟨m, hm, (mEssMaximum_spec f tol m).1.mpr hg⟩
+  · intro v hv
+    obtain ⟨⟨m, hm, hg⟩, h4⟩ := h2 v hv
+    constructor
+    · exact ⟨m, hm, ((mEssMaximum_spec f tol m).2 v hg).1⟩
+    · intro m' hm' p hp hw
+      cases hg' : mEssMaximum f tol m' with
+      | none => exact absurd hw ((mEssMaximum_spec f tol m').1.mp hg' p hp)
+      | some y => exact le_trans (((mEssMaximum_spec f tol m').2 y hg').2 p hp hw) (h4 m' hm' y hg')
+
+theorem ess_minimum_def (f : List K → K) (tol : K) (c : PM K) :
+    (pmEssMinimum f tol c = none ↔ c = [] ∨ ∃ m ∈ c, ∀ p ∈ m, ¬ tol < p.weight) ∧
+    ∀ v, pmEssMinimum f tol c = some v →
+      (∃ m ∈ c, ∃ p ∈ m, tol < p.weight ∧ f [p.position] = v) ∧
+      ∀ m ∈ c, ∀ p ∈ m, tol < p.weight → v ≤ f [p.position] := by
+  obtain ⟨h1, h2⟩ := bind_allSome_minL (mEssMinimum f tol) c
+  constructor
+  · rw [pmEssMinimum, h1]
+    constructor
+    · rintro (h | ⟨m, hm, hg⟩)
+      · left; exact h
+      · right; exact ⟨m, hm, (mEssMinimum_spec f tol m).1.mp hg⟩
+    · rintro (h | ⟨m, hm, hg⟩)
+      · left; exact h
+      · right; exact ⟨m, hm, (mEssMinimum_spec f tol m).1.mpr hg⟩
+  · intro v hv
+    obtain ⟨⟨m, hm, hg⟩, h4⟩ := h2 v hv
+    constructor
+    · exact ⟨m, hm, ((mEssMinimum_spec f tol m).2 v hg).1⟩
+    · intro m' hm' p hp hw
+      cases hg' : mEssMinimum f tol m' with
+      | none => exact absurd hw ((mEssMinimum_spec f tol m').1.mp hg' p hp)
+      | some y => exact le_trans (h4 m' hm' y hg') (((mEssMinimum_spec f tol m').2 y hg').2 p hp hw)
+
+/-- **product_measure.ptp / ess_ptp**: the greatest per-factor spread (a factor's `ptp`, see `measure_ptp_def`),
+attained by one factor. -/
+theorem ptp_def (f : List K → K) (tol : K) (c : PM K) :
+    (∀ v, pmPtp f c = some v → (∃ m ∈ c, mPtp f m = some v) ∧ ∀ m ∈ c, ∀ y, mPtp f m = some y → y ≤ v) ∧
+    (∀ v, pmEssPtp f tol c = some v →
+      (∃ m ∈ c, mEssPtp f tol m = some v) ∧ ∀ m ∈ c, ∀ y, mEssPtp f tol m = some y → y ≤ v) :=
+  ⟨(bind_allSome_maxL (mPtp f) c).2, (bind_allSome_maxL (mEssPtp f tol) c).2⟩
+
+/-- **scenario.pof_value**: the total weight of the (value, weight) pairs with `f(value) ≤ 0`
+(`zip(values, weights)`: the shorter list decides). -/
+theorem pof_value_def (s : Scen K) (f : K → K) :
+    pofValue s f = (((List.zip s.values (weights s.pm)).filter fun vw => decide (f vw.1 ≤ 0)).map (·.2)).sum :=
+  pofG_eq f s.values (weights s.pm)
+
+/-- **scenario.mean_value / set_mean_value**: the weighted mean of the values over the product weights; setting
+it achieves the target (one value per product point, total weight non-zero) and leaves the measures alone. -/
+theorem mean_value_def (inf : K) (s : Scen K) (hw : (weights s.pm).sum ≠ 0) :
+    meanValue inf s = (List.zipWith (· * ·) s.values (weights s.pm)).sum / (weights s.pm).sum :=
+  mean_eq inf s.values (weights s.pm) hw
+
+theorem set_mean_value (inf : K) (s : Scen K) (v : K) (hl : s.values.length = npts s.pm)
+    (hw : (weights s.pm).sum ≠ 0) :
+    meanValue inf (setMeanValue inf s v) = v ∧ (setMeanValue inf s v).pm = s.pm ∧
+      (setMeanValue inf s v).values.length = s.values.length := by
+  refine ⟨?_, rfl, by simp [setMeanValue, imposeMean]⟩
+  unfold meanValue setMeanValue
+  exact mean_imposeMean inf v s.values (weights s.pm) (by rw [hl, weights_length]) hw
+
+/-- **product_measure.center_mass = v**: raises exactly when `v` has fewer entries than there are factors;
+otherwise every factor's centre of mass becomes its entry (non-zero factor masses), weights untouched. -/
+theorem set_center_masses (inf : K) (c : PM K) (vs : List K) :
+    (vs.length < c.length → pmSetCenterMass inf c vs = none) ∧
+    (c.length ≤ vs.length → (∀ m ∈ c, (mweights m).sum ≠ 0) →
+      ∃ c', pmSetCenterMass inf c vs = some c' ∧ pmCenterMass inf c' = vs.take c.length ∧ wts c' = wts c) :=
+  ⟨pmSetCenterMass_short inf c vs, pmSetCenterMass_spec inf c vs⟩
+
+/-- **measure.normalize()**: non-negative weights of positive total get total weight 1; the number of points
+and the centre of mass are kept. -/
+theorem measure_normalize (inf : K) (m : Measure K) (hnn : ∀ w ∈ mweights m, 0 ≤ w)
+    (hpos : 0 < (mweights m).sum) :
+    (mNormalize inf m).length = m.length ∧ (mweights (mNormalize inf m)).sum = 1 ∧
+      centerMass inf (mNormalize inf m) = centerMass inf m :=
+  mNormalize_spec inf m hnn hpos
+
+end stats
+
 /-! ## non-vacuity: concrete, non-trivial instances -/
 
 /-- a 3x2x1 product measure over `Nat` payloads -/
@@ -357,5 +757,38 @@ example : variance 0 exM ≠ 0 ∧
     (fun _ : ℚ => (2 : ℚ)) (4 / variance 0 exM) * (fun _ : ℚ => (2 : ℚ)) (4 / variance 0 exM)
       = 4 / variance 0 exM := by
   rw [exM_var]; norm_num
+
+/-- `impose_measure`: the docstring's first factor (`tracking = {0: {(0,1)}}`, npts (3,)) and a run with both
+kinds of items; the hypotheses of the impose theorems hold for them -/
+example : imposeMeasure (0 : ℚ) [3] [(0, [(0, [1])])] [] [1/2, 0, 1/2, 2, 4, 6] = some [1/2, 0, 1/2, 2, 2, 6] := by
+  norm_num [imposeMeasure, load, truncParams, unflatten, nestedSplit, compose, listOfMeasures, zipMeasure, imposeOn,
+    collapseAt, unweightAt, imposeCollapse, collapseGroup, collapseStep, imposeMean, mean, sumL, truthy, absR,
+    rebuild, flatten, mweights, mpositions, List.modify]
+example : imposeMeasure (0 : ℚ) [3] [(0, [(0, [1])])] [(0, [2])] [1/4, 1/4, 1/2, 2, 4, 6]
+    = some [1, 0, 0, 9/2, 9/2, 17/2] := by
+  norm_num [imposeMeasure, load, truncParams, unflatten, nestedSplit, compose, listOfMeasures, zipMeasure, imposeOn,
+    collapseAt, unweightAt, imposeCollapse, imposeUnweighted, normalizeMass, collapseGroup, collapseStep, imposeMean,
+    mean, sumL, truthy, absR, rebuild, flatten, mweights, mpositions, List.modify, List.mapIdx_cons]
+example : GroupOK 3 (0, [1]) ∧ (∃ i, i < 3 ∧ i ∉ [2]) ∧ ([(0, [(0, [1])])].map (·.1)).Nodup ∧
+    [((0 : Nat), [1])].Pairwise (fun a b => ∀ p, inGroup a p → ¬ inGroup b p) := by
+  refine ⟨⟨by decide, by decide⟩, ⟨0, by decide, by decide⟩, by decide, by simp⟩
+
+/-- update for every prefix length on the 3x2x1 example: 7 parameters cover factor 0 completely and reach one
+position into factor 1 (cut k = 2, factor 2 untouched); 6 parameters stop at the cut k = 1 -/
+example : update exC [9, 8, 7, 1, 2, 3, 5] = some [[⟨9, 1⟩, ⟨8, 2⟩, ⟨7, 3⟩], [⟨4, 40⟩, ⟨5, 50⟩], [⟨6, 60⟩]] := by decide
+example : update exC [9, 8, 7, 1, 2, 3, 5, 6, 41] = some [[⟨9, 1⟩, ⟨8, 2⟩, ⟨7, 3⟩], [⟨5, 41⟩], [⟨6, 60⟩]] := by decide
+/-- an empty factor at the end loses nothing; in front it makes the last factor keep its old numbers -/
+example : update ([[⟨1, 10⟩], []] : PM Nat) [5, 7] = some [[⟨5, 7⟩], []] := by decide
+
+/-- the statistics family on concrete measures: maximum over ALL factors' positions, ess_* with a zero weight,
+a raising case, pof_value -/
+example : pmMaximum (fun x : List ℚ => x.headD 0) exQ = some 5 ∧ pmMinimum (fun x : List ℚ => x.headD 0) exQ = some 1 := by
+  norm_num [pmMaximum, pmMinimum, mMaximum, mMinimum, maximumL, minimumL, singles, exQ, mpositions, allSome, maxL, minL]
+example : pmEssMaximum (fun x : List ℚ => x.headD 0) 0 exQ = some 3 := by
+  norm_num [pmEssMaximum, mEssMaximum, essMaximumL, maximumL, singles, exQ, mpositions, mweights, allSome, maxL, supportL]
+example : pmMaximum (fun x : List ℚ => x.headD 0) ([[⟨1, 2⟩], []] : PM ℚ) = none := by
+  simp [pmMaximum, mMaximum, maximumL, singles, mpositions, allSome, maxL]
+example : pofValue (⟨exQ, [-1, 2, -3, 4]⟩ : Scen ℚ) (fun v => v) = 1/2 := by
+  rw [pof_value_def, exQ_weights]; norm_num
 
 end MysticVerif.C19
